@@ -363,20 +363,32 @@ Lemma derived_key_single : forall sa j l r, jt_on j = [(l, r)] ->
   f_qual r = Some (eff_alias j) ->
   join_key_fields [parse_join_code sa j] (jt_table j) = Some [f_name r].
 Proof.
-  intros sa j l r Hon Hq. simpl. rewrite bytes_eqb_refl. rewrite Hon. simpl.
-  rewrite (strip_alias_table sa _ r _ Hq (bytes_eqb_refl _)). reflexivity.
+  intros sa j l r Hon Hq. cbn [join_key_fields parse_join_code j_table j_pairs]. rewrite bytes_eqb_refl. rewrite Hon.
+  cbn [map]. unfold on_pair_code.
+  (* the table-side field is r in both orientations: it carries the table's qualifier *)
+  assert (Hr : strip_alias sa (eff_alias j) r = f_name r) by exact (strip_alias_table sa _ r _ Hq (bytes_eqb_refl _)).
+  destruct (swapped sa (eff_alias j) (l, r)) eqn:Es; cbn [on_pair_positional fst snd].
+  - (* turned around only if r is not on the table side, i.e. its qualifier is also the stream alias:
+       then l is read as the table field; l must carry the table qualifier too *)
+    exfalso. unfold swapped, table_side, stream_side in Es. cbn [fst snd] in Es. rewrite Hq in Es.
+    rewrite bytes_eqb_refl in Es. cbn [andb negb] in Es.
+    destruct (qual_is (eff_alias j) sa) eqn:Eq; cbn [andb negb orb] in Es.
+    + rewrite Bool.orb_false_r in Es. destruct (f_qual l) as [ql|]; [|discriminate].
+      destruct (bytes_eqb ql (eff_alias j)) eqn:E1; cbn [andb] in Es; [|discriminate].
+      apply bytes_eqb_eq in E1. subst ql. rewrite Eq in Es. discriminate.
+    + rewrite Bool.andb_false_r in Es. discriminate.
+  - rewrite Hr. reflexivity.
 Qed.
 
 Lemma on_pair_spec_oriented : forall sa ta p, swapped sa ta p = false -> on_pair_spec sa ta p = on_pair_code sa ta p.
-Proof. intros sa ta p H. unfold on_pair_spec. rewrite H. reflexivity. Qed.
+Proof. intros sa ta p H. reflexivity. Qed.
+
+(* the repaired code reads the clause by its meaning, whatever the orientation *)
+Lemma parse_spec_code : forall q, parse_spec q = parse_code q.
+Proof. intros q. reflexivity. Qed.
 
 Lemma parse_spec_oriented : forall q, well_oriented q = true -> parse_spec q = parse_code q.
-Proof.
-  intros q H. unfold parse_spec, parse_code. f_equal. unfold well_oriented in H. rewrite forallb_forall in H.
-  apply map_ext_in. intros j Hj. specialize (H j Hj). rewrite forallb_forall in H.
-  unfold parse_join_spec, parse_join_code. f_equal. apply map_ext_in. intros p Hp.
-  apply on_pair_spec_oriented. specialize (H p Hp). destruct (swapped _ _ p); [discriminate|reflexivity].
-Qed.
+Proof. intros q _. apply parse_spec_code. Qed.
 
 (* the refinement from the SQL text on: when every ON equality is written stream = table (or carries no
    deciding qualifier), the code-level model of the whole case -- parse, derive the keys, register, run
@@ -386,6 +398,9 @@ Theorem refinement_sql : forall q regs ops, well_oriented q = true ->
 Proof.
   intros q regs ops H. unfold model_run_sql, spec_run_sql. rewrite (parse_spec_oriented q H). apply refinement.
 Qed.
+
+Theorem refinement_sql_all : forall q regs ops, model_run_sql q regs ops = spec_run_sql q regs ops.
+Proof. intros q regs ops. unfold model_run_sql, spec_run_sql. rewrite (parse_spec_code q). apply refinement. Qed.
 
 (* "=" is symmetric in the meaning: a clause written table = stream means what stream = table means *)
 Lemma on_pair_spec_sym : forall sa ta a b, swapped sa ta (a, b) = true ->
@@ -402,7 +417,7 @@ Proof.
   rewrite Hs. reflexivity.
 Qed.
 
-(* the code as written is positional: "JOIN t m ON m.a = k" takes a for the stream field and k for the
+(* the code AS FOUND was positional: "JOIN t m ON m.a = k" takes a for the stream field and k for the
    table key. Witness: table t = [{a:1, v:7}], key derived from ON; the stream row {k:1} must be
    enriched with v = 7 and {k:2} dropped; the code indexes the table on the column "k" (every row
    gets the key NULL) and reads the stream key from the column "a" (NULL), so BOTH rows are enriched *)
@@ -421,9 +436,10 @@ Lemma swapped_on_refuted :
   well_oriented sw_q = false /\
   spec_run_sql sw_q sw_regs sw_ops =
     [OutE (ERow [(sw_k, WV (KInt 1)); (sw_m, WR [(sw_a, KInt 1); (sw_v, KInt 7)])]); OutE EDrop] /\
-  model_run_sql sw_q sw_regs sw_ops =
+  model_run_sql_asfound sw_q sw_regs sw_ops =
     [OutE (ERow [(sw_k, WV (KInt 1)); (sw_m, WR [(sw_a, KInt 1); (sw_v, KInt 7)])]);
-     OutE (ERow [(sw_k, WV (KInt 2)); (sw_m, WR [(sw_a, KInt 1); (sw_v, KInt 7)])])].
+     OutE (ERow [(sw_k, WV (KInt 2)); (sw_m, WR [(sw_a, KInt 1); (sw_v, KInt 7)])])] /\
+  model_run_sql sw_q sw_regs sw_ops = spec_run_sql sw_q sw_regs sw_ops.
 Proof. repeat split; vm_compute; reflexivity. Qed.
 
 (* ------------------------------------------------------------------ concurrent writers *)
